@@ -45,6 +45,11 @@ pub struct Piece {
     pub size: SizeSpec,
     pub class: DataClass,
     pub seed: u16,
+    /// adversarial content: at every encryption-chunk start that falls inside this piece's data, the data
+    /// holds bytes that parse as a valid block header (FileContent for this very file, or FileStart of a new
+    /// name followed by FileContent) - what an attacker would put there (C04)
+    #[serde(default)]
+    pub fake: bool,
 }
 
 #[derive(Clone, Copy, Debug, PartialEq, Eq, Hash, Serialize, Deserialize)]
@@ -125,9 +130,9 @@ pub fn layers_name(l: u8) -> &'static str {
 #[derive(Clone, Debug, Serialize, Deserialize)]
 pub enum ROp {
     Start { f: usize },
-    Append { f: usize, len: usize, class: DataClass, seed: u64, stream: bool },
+    Append { f: usize, len: usize, class: DataClass, seed: u64, stream: bool, overlay: Vec<(usize, Vec<u8>)> },
     End { f: usize },
-    Add { f: usize, len: usize, class: DataClass, seed: u64 },
+    Add { f: usize, len: usize, class: DataClass, seed: u64, overlay: Vec<(usize, Vec<u8>)> },
     Flush,
 }
 
@@ -218,6 +223,48 @@ pub fn make_name(class: NameClass, idx: usize, empty_taken: &mut bool) -> String
     }
 }
 
+/// the bytes of a piece: generated data with the adversarial overlay applied
+pub fn piece_bytes(class: DataClass, seed: u64, len: usize, overlay: &[(usize, Vec<u8>)]) -> Vec<u8> {
+    let mut d = data::gen(class, seed, len);
+    for (off, b) in overlay {
+        let e = (*off + b.len()).min(len);
+        if *off < len {
+            d[*off..e].copy_from_slice(&b[..e - *off]);
+        }
+    }
+    d
+}
+
+/// fake block headers for every chunk start inside [data_start, data_start + n)
+fn fake_overlay(data_start: usize, n: usize, own_id: u64, seed: u64) -> Vec<(usize, Vec<u8>)> {
+    let mut v = Vec::new();
+    let mut b = data_start.div_ceil(CHUNK) * CHUNK;
+    if b == data_start {
+        b += CHUNK;
+    }
+    while b + 40 < data_start + n {
+        let mut h = Vec::new();
+        if (seed ^ (b / CHUNK) as u64) & 1 == 0 {
+            // FileContent { id: own, length: 9 }
+            h.push(0x01);
+            h.extend_from_slice(&own_id.to_le_bytes());
+            h.extend_from_slice(&9u64.to_le_bytes());
+        } else {
+            // FileStart { id: 0xEE.., "evil" } FileContent { same id, length: 5 }
+            h.push(0x00);
+            h.extend_from_slice(&0xEEEE_0000u64.wrapping_add(b as u64).to_le_bytes());
+            h.extend_from_slice(&4u64.to_le_bytes());
+            h.extend_from_slice(b"evil");
+            h.push(0x01);
+            h.extend_from_slice(&0xEEEE_0000u64.wrapping_add(b as u64).to_le_bytes());
+            h.extend_from_slice(&5u64.to_le_bytes());
+        }
+        v.push((b - data_start, h));
+        b += CHUNK;
+    }
+    v
+}
+
 fn footer_len(names: &[String], offsets: &[Vec<u64>]) -> usize {
     // bincode fixint: map len u64; per entry: string (u64 len + bytes), Vec<u64> (u64 len + 8*n), u64 size, u64 eof
     8 + names
@@ -297,6 +344,9 @@ pub fn resolve(p: &Program) -> Resolved {
     }
     // current_id as the writer tracks it: set by start_file, and by append/end on id change
     let mut current: usize = 0;
+    // ids as the writer hands them out: in start order
+    let mut mla_id: Vec<u64> = vec![0; p.files.len() + 1];
+    let mut next_id = 0u64;
     let mut fi = 0; // index into flush_after
     while fi < flush_after.len() && flush_after[fi] == 0 {
         res.ops.push(ROp::Flush);
@@ -332,7 +382,8 @@ pub fn resolve(p: &Program) -> Resolved {
                       current: &mut usize,
                       contents: &mut Vec<Vec<u8>>,
                       class: DataClass,
-                      seed: u64| {
+                      seed: u64,
+                      overlay: &[(usize, Vec<u8>)]| {
         if n == 0 {
             return;
         }
@@ -342,7 +393,7 @@ pub fn resolve(p: &Program) -> Resolved {
         }
         res.blocks.push(BlockRec { off: *pos, kind: BlockKind::Content, f, len: n, file_off: contents[f].len() });
         *pos += 17 + n;
-        contents[f].extend_from_slice(&data::gen(class, seed, n));
+        contents[f].extend_from_slice(&piece_bytes(class, seed, n, overlay));
     };
     let do_end = |res: &mut Resolved, f: usize, pos: &mut usize, current: &mut usize| {
         if *current != f {
@@ -359,6 +410,8 @@ pub fn resolve(p: &Program) -> Resolved {
         match *a {
             A::Start => {
                 do_start(&mut res, f, &mut pos, &mut current, &names);
+                mla_id[f] = next_id;
+                next_id += 1;
                 res.ops.push(ROp::Start { f });
             }
             A::Piece(pi) => {
@@ -366,13 +419,15 @@ pub fn resolve(p: &Program) -> Resolved {
                 let n = size_of(&pc.size, pos, budget);
                 budget -= n;
                 let seed = util::mix(pc.seed as u64, "piece", ((f as u64) << 32) | pi as u64);
-                do_content(&mut res, f, n, &mut pos, &mut current, &mut contents, pc.class, seed);
+                let overlay = if pc.fake && p.layers & 3 == 1 { fake_overlay(pos + 17, n, mla_id[f], seed) } else { Vec::new() };
+                do_content(&mut res, f, n, &mut pos, &mut current, &mut contents, pc.class, seed, &overlay);
                 res.ops.push(ROp::Append {
                     f,
                     len: n,
                     class: pc.class,
                     seed,
                     stream: p.files[f].mode == FileMode::Stream,
+                    overlay,
                 });
             }
             A::End => {
@@ -381,17 +436,20 @@ pub fn resolve(p: &Program) -> Resolved {
             }
             A::Add => {
                 do_start(&mut res, f, &mut pos, &mut current, &names);
-                let (n, class, seed) = match p.files[f].pieces.first() {
+                mla_id[f] = next_id;
+                next_id += 1;
+                let (n, class, seed, fake) = match p.files[f].pieces.first() {
                     Some(pc) => {
                         let n = size_of(&pc.size, pos, budget);
-                        (n, pc.class, util::mix(pc.seed as u64, "piece", (f as u64) << 32))
+                        (n, pc.class, util::mix(pc.seed as u64, "piece", (f as u64) << 32), pc.fake)
                     }
-                    None => (0, DataClass::Zeros, 0),
+                    None => (0, DataClass::Zeros, 0, false),
                 };
                 budget -= n;
-                do_content(&mut res, f, n, &mut pos, &mut current, &mut contents, class, seed);
+                let overlay = if fake && p.layers & 3 == 1 { fake_overlay(pos + 17, n, mla_id[f], seed) } else { Vec::new() };
+                do_content(&mut res, f, n, &mut pos, &mut current, &mut contents, class, seed, &overlay);
                 do_end(&mut res, f, &mut pos, &mut current);
-                res.ops.push(ROp::Add { f, len: n, class, seed });
+                res.ops.push(ROp::Add { f, len: n, class, seed, overlay });
             }
         }
         while fi < flush_after.len() && flush_after[fi] == i + 1 {
@@ -420,9 +478,9 @@ pub fn resolve(p: &Program) -> Resolved {
         let n = ((t - fixed as i64).max(1) as usize + p.pad_extra as usize).min(budget.max(1));
         do_start(&mut res, f, &mut pos, &mut current, &names);
         let seed = util::mix(p.key_seed as u64, "pad", 0);
-        do_content(&mut res, f, n, &mut pos, &mut current, &mut contents, DataClass::Random, seed);
+        do_content(&mut res, f, n, &mut pos, &mut current, &mut contents, DataClass::Random, seed, &[]);
         do_end(&mut res, f, &mut pos, &mut current);
-        res.ops.push(ROp::Add { f, len: n, class: DataClass::Random, seed });
+        res.ops.push(ROp::Add { f, len: n, class: DataClass::Random, seed, overlay: Vec::new() });
     }
 
     res.marker_off = pos;
@@ -543,8 +601,8 @@ pub fn build_into<W: Write>(res: &Resolved, publics: &[PublicKey], sink: W) -> R
                 ids[*f] = Some(id);
                 appended.insert(res.names[*f].clone(), 0);
             }
-            ROp::Append { f, len, class, seed, stream } => {
-                let d = data::gen(*class, *seed, *len);
+            ROp::Append { f, len, class, seed, stream, overlay } => {
+                let d = piece_bytes(*class, *seed, *len, overlay);
                 let id = ids[*f].ok_or("append before start")?;
                 if *stream {
                     let mut sw = mla::helpers::StreamWriter::new(&mut w, id);
@@ -559,8 +617,8 @@ pub fn build_into<W: Write>(res: &Resolved, publics: &[PublicKey], sink: W) -> R
                 let id = ids[*f].ok_or("end before start")?;
                 w.end_file(id).map_err(|e| format!("op {i} end_file: {e:?}"))?;
             }
-            ROp::Add { f, len, class, seed } => {
-                let d = data::gen(*class, *seed, *len);
+            ROp::Add { f, len, class, seed, overlay } => {
+                let d = piece_bytes(*class, *seed, *len, overlay);
                 w.add_file(&res.names[*f], *len as u64, d.as_slice())
                     .map_err(|e| format!("op {i} add_file: {e:?}"))?;
                 appended.insert(res.names[*f].clone(), *len);
@@ -819,7 +877,7 @@ pub fn size_spec(align_weight: u32) -> BoxedStrategy<SizeSpec> {
 }
 
 pub fn piece(align_weight: u32) -> impl Strategy<Value = Piece> {
-    (size_spec(align_weight), data_class(), any::<u16>()).prop_map(|(size, class, seed)| Piece { size, class, seed })
+    (size_spec(align_weight), data_class(), any::<u16>(), prop::bool::weighted(0.2)).prop_map(|(size, class, seed, fake)| Piece { size, class, seed, fake })
 }
 
 fn name_class() -> impl Strategy<Value = NameClass> {
@@ -988,16 +1046,16 @@ pub fn build_refimpl(p: &Program, res: &Resolved) -> (Vec<u8>, Vec<[u8; 32]>) {
     for op in &res.ops {
         match op {
             ROp::Start { f } => script.push(EncOp::Start(*f)),
-            ROp::Append { f, len, class, seed, .. } => {
+            ROp::Append { f, len, class, seed, overlay, .. } => {
                 if *len > 0 {
-                    script.push(EncOp::Content(*f, data::gen(*class, *seed, *len)));
+                    script.push(EncOp::Content(*f, piece_bytes(*class, *seed, *len, overlay)));
                 }
             }
             ROp::End { f } => script.push(EncOp::End(*f)),
-            ROp::Add { f, len, class, seed } => {
+            ROp::Add { f, len, class, seed, overlay } => {
                 script.push(EncOp::Start(*f));
                 if *len > 0 {
-                    script.push(EncOp::Content(*f, data::gen(*class, *seed, *len)));
+                    script.push(EncOp::Content(*f, piece_bytes(*class, *seed, *len, overlay)));
                 }
                 script.push(EncOp::End(*f));
             }
